@@ -1623,9 +1623,12 @@ impl SubRule {
                                 }
                                 last_pos = sp;
                                 debug_assert!(res_word.in_bounds(sp));
+                                // the variable takes the place of the first copy: the written segment is as long as the matched one
+                                // if it is the same segment, else one copy; an identical neighbour is another segment
+                                let own_len = if res_word.syllables[sp.syll_index].segments[sp.seg_index] == *seg { res_word.seg_length_at(sp) } else { 1 };
                                 res_word.syllables[sp.syll_index].segments[sp.seg_index] = *seg;
                                 if let Some(m) = mods {
-                                    let lc = res_word.apply_seg_mods(&self.alphas, m, sp, num.position)?;
+                                    let lc = res_word.syllables[sp.syll_index].apply_seg_mods_to(&self.alphas, m, sp.seg_index, own_len, num.position)?;
                                     total_len_change[sp.syll_index] += lc;
                                     if lc > 0 {
                                         last_pos.seg_index += lc.unsigned_abs() as usize;
